@@ -587,8 +587,26 @@ pub fn sanitize_unknown(spec: &SpecTable, forest: &mut [Node], writer_view: bool
                 let global_path = spec.get(n.id).map(|e| e.is_global()).unwrap_or(true);
                 let mut clear = false;
                 if global_path {
-                    *c1 += 1;
-                    clear = true;
+                    // "sibling" is not defined for a master whose own path has a placeholder, so such a master may only keep its unknown size
+                    // where the question never arises: nothing follows it at its own level (an enclosing master's end, a higher-level
+                    // element or the end of input closes it), and nothing inside it would close it by the reference rule (a declared
+                    // sibling, i.e. an element of the identical path, or an element of an ancestor's type)
+                    fn any_desc(n: &Node, f: &dyn Fn(&Node) -> bool) -> bool {
+                        n.children().iter().any(|c| f(c) || any_desc(c, f))
+                    }
+                    let m_id = n.id;
+                    // (for this purpose "would close" ignores the exemption of global elements: an element that is global AND of an ancestor's
+                    // type, or of the identical path, is exactly the case the statement answers both ways)
+                    let m_path = spec.get(m_id).map(|e| e.path.clone()).unwrap_or_default();
+                    let inner_closer = any_desc(n, &|d| {
+                        ref_closes(spec, m_id, d.id)
+                            || m_path.iter().any(|p| matches!(p, PathPart::Id(x) if *x == d.id))
+                            || spec.get(d.id).map(|e| e.path == m_path || e.is_root()).unwrap_or(false)
+                    });
+                    if next_id.is_some() || inner_closer {
+                        *c1 += 1;
+                        clear = true;
+                    }
                 } else if let Some(nx) = next_id {
                     if !ref_closes(spec, n.id, nx) {
                         *c2 += 1;
